@@ -190,7 +190,7 @@ def execute(hist, paths):
 def run_case(args):
     hist, d = args
     os.makedirs(d, exist_ok=True)
-    paths = {"p1": os.path.join(d, "one.db"), "p2": os.path.join(d, "two.db")}
+    paths = {"p1": os.path.join(d, "one.db"), "p2": os.path.join(d, "two.gffdb.sqlite3")}      # a database is a database whatever its file is called
     try:
         return execute(hist, paths)
     finally:
@@ -220,6 +220,13 @@ def random_reads(ctx, n_db, n_reads):
             continue
         db.conn.close()
         db = gffutils.FeatureDB(path)
+        if k % 2 == 1:          # a WRITER ran on this handle before the reads (whatever it did is part of the "before" state)
+            try:
+                with dbio.quiet():
+                    db.merge_all(exclude_components=False)
+                db.conn.commit()
+            except Exception:  # noqa
+                db.conn.rollback()
         before = (G.canon_snap(dbio.proj_file(path)), sha(path))
         seq = [ctx.rng.choice(READ_KINDS) for _ in range(n_reads)]
         stmts = []
